@@ -119,6 +119,21 @@ CHECKS = {
              "exception other than ValidateTransactionError during a head change propagates; nothing is claimed for "
              "that path.",
         technique=PROOF_TECH + "; data-structure invariant over its writers + writer scan"),
+    'C20': dict(
+        category='proof', design_ref='6/C20',
+        text="Exceptional post-condition, proved from source: no exception of any class escapes "
+             "LocalPeer.handle_remote_peer_selector_event (every raising statement is inside the try, both handlers catch, "
+             "and LocalPeer.disconnect - verified too - cannot raise), so malformed input can at most end in a "
+             "disconnect of that peer. What per-connection code may change: a reachability analysis over the real AST "
+             "shows that only the block and the transaction handler (and the dispatchers above them) can reach an "
+             "operation on chain state, pool or block store; their contracts (C09, C13, verified in this check as well) "
+             "say that every rejecting or raising path leaves those unchanged; all decoders and the framing code mention "
+             "no node state at all; unknown message types and a non-Hello first message raise.",
+        note="Exceptions outside per-connection handling (accepting a connection, manager steps) are not driven by peer "
+             "input and not covered. 'Other connections unaffected' is by frame: handlers write only their own "
+             "connection's fields, the peer book (C19) and the objects named above. Sockets/selectors are externals that "
+             "may raise anything (A-SOCK); logging is total (A-LOG).",
+        technique=PROOF_TECH + "; exceptional post-condition + structural frame/reachability obligations"),
     'C16': dict(
         category='proof', design_ref='6/C16',
         text="For every height (all integers >= 0, no enumeration): get_block_subsidy equals the documented schedule "
